@@ -63,3 +63,9 @@ open CalmVerif.Props.C07
 #check @ok_program_keysPlain
 #print axioms arguments_regression
 #check @arguments_regression
+#print axioms capture_free_of_walk_facts
+#check @capture_free_of_walk_facts
+#print axioms binding_preserved_simple_partial
+#check @binding_preserved_simple_partial
+#print axioms ok_program_facts
+#check @ok_program_facts
